@@ -12,6 +12,8 @@ import (
 	"verif/fw"
 	"verif/gen"
 	"verif/mon"
+
+	"github.com/wrgl/wrgl/pkg/objects"
 )
 
 // C02 — a table's identity depends only on its logical content.
@@ -85,7 +87,7 @@ func c02Run(c *fw.Case, env *fw.Env) *fw.Obs {
 		}
 		vs = append(vs, variant{"chunks-" + ch, gen.Shuffle(rng, t.Rows), ingCfg{Chunks: ch, Workers: 1, Store: "mem", Via: "pkg"}})
 	}
-	for _, w := range []int{4, 8, 16} {
+	for _, w := range []int{2, 3, 4, 8, 16} {
 		vs = append(vs, variant{fmt.Sprintf("workers-%d", w), t.Rows, ingCfg{Chunks: "none", Workers: w, Store: "mem", Via: "pkg"}})
 	}
 	for _, d := range []string{"|", ";", "\t"} {
@@ -296,6 +298,67 @@ func c02CLI(c *fw.Case, env *fw.Env, o *fw.Obs, p *c02Params) *fw.Obs {
 			}
 		}
 	}
+	// the same file under another primary key is another table: after the branch's key is reconfigured, the cached
+	// two-argument commit must produce the table a direct ingest with that key produces
+	final, _ := os.ReadFile(fp)
+	fcols, frows, _ := gen.ParseCSV(final, 0)
+	var alts [][]int
+	if len(p.T.PK) >= 2 {
+		alts = append(alts, p.T.PK[:1], []int{p.T.PK[1], p.T.PK[0]}, p.T.PK)
+	}
+	if len(p.T.PK) >= 1 {
+		alts = append(alts, nil, p.T.PK)
+	}
+	for _, alt := range alts {
+		names := gen.ColNames(fcols, alt)
+		var cerr error
+		var cpn, cout string
+		if len(names) == 0 {
+			cout, cerr, cpn = mon.Wrgl(wd, nil, "config", "unset", "branch.main.primaryKey", "--all")
+		} else {
+			cout, cerr, cpn = mon.Wrgl(wd, nil, "config", "set", "branch.main.primaryKey", strings.Join(names, ","))
+		}
+		if cerr != nil || cpn != "" {
+			o.Status = "inconclusive"
+			o.Note = fmt.Sprintf("config: %v %s %s", cerr, cpn, cout)
+			break
+		}
+		hb, _ := snap()
+		out, err, pn = mon.Wrgl(wd, nil, "commit", "main", "rekey", "--no-progress", "-n", "3")
+		o.Ev("oracle_evaluations", 1)
+		o.Ev("cli_rekey_steps", 1)
+		if err != nil || pn != "" {
+			o.Violate("commit-failed/wrgl-commit-rekey/"+class, "commit after the key became %v: %v %s %s", names, err, pn, out)
+			break
+		}
+		ha, _ := snap()
+		h, err := mon.OpenRepoHandle(wd)
+		if err != nil {
+			break
+		}
+		var gotPK []string
+		var gotSum []byte
+		if head, err := h.RS.Get("heads/main"); err == nil {
+			if com, err := objects.GetCommit(h.DB, head); err == nil {
+				gotSum = com.Table
+				if tb, err := objects.GetTable(h.DB, com.Table); err == nil {
+					gotPK = tb.PrimaryKey()
+				}
+			}
+		}
+		h.Close()
+		if strings.Join(gotPK, "\x00") != strings.Join(names, "\x00") || ha == hb || strings.Contains(out, "hasn't changed") {
+			o.Violate("key-change-not-committed/wrgl-commit/"+class, "branch key reconfigured to %v, unchanged file committed through the cache: output %q, head %s -> %s, head table key %v", names, strings.TrimSpace(out), hb, ha, gotPK)
+			break
+		}
+		if gen.Model(frows, alt, len(fcols)).Dups == 0 {
+			want, werr, wpn := mon.Ingest(mon.NewMemStore(), final, mon.IngestCfg{PK: names, Workers: 1})
+			if werr == nil && wpn == "" && !bytes.Equal(want, gotSum) {
+				o.Violate("sum-differs/rekey/"+class, "branch-file commit with key %v gave table %x, a direct ingest of the same file gives %x", names, gotSum, want)
+				break
+			}
+		}
+	}
 	o.Ev("cli_nochange_cases", 1)
 	o.Key("cli/%s/%d", class, p.T.TableSeed%1000000)
 	o.Sample = map[string]interface{}{"mode": "cli-nochange", "rows": len(t.Rows), "output": strings.TrimSpace(out)}
@@ -322,6 +385,10 @@ func init() {
 				s := randTblSpec(rng, true)
 				if s.NCols == 1 {
 					s.NCols = 2
+				}
+				if i%2 == 0 {
+					s.NCols = max(s.NCols, 3)
+					s.PK = []int{1, 0} // composite, so that subset / reorder / no key are all exercised
 				}
 				l.Add("cli-nochange", c02Params{T: s, Mode: "cli-nochange"}, 0)
 			}
